@@ -109,12 +109,14 @@ func (server *Server) Start() error {
 		return err
 	}
 
+	epoch := server.ConnManager.currentEpoch()
+
 	if server.IsPortEnabled() {
-		go server.serve(server.portListener)
+		go server.serve(server.portListener, epoch)
 	}
 
 	if server.IsTLSPortEnabled() {
-		go server.tlsServe(server.tlsPortListener, server.tlsConfig)
+		go server.tlsServe(server.tlsPortListener, server.tlsConfig, epoch)
 	}
 
 	return nil
@@ -122,11 +124,13 @@ func (server *Server) Start() error {
 
 // Stop stops the server.
 func (server *Server) Stop() error {
-	if err := server.ConnManager.Stop(); err != nil {
+	// The listeners are closed first, so that no connection is accepted
+	// while the connections are closed.
+	if err := server.close(); err != nil {
 		return err
 	}
 
-	if err := server.close(); err != nil {
+	if err := server.ConnManager.Stop(); err != nil {
 		return err
 	}
 
@@ -208,7 +212,7 @@ func (server *Server) close() error {
 }
 
 // serve handles client connections.
-func (server *Server) serve(l net.Listener) error {
+func (server *Server) serve(l net.Listener, epoch int) error {
 	// The accept loop owns the listener it was started with: when it ends it
 	// must not close the listeners a later Start has opened.
 	defer l.Close()
@@ -219,12 +223,12 @@ func (server *Server) serve(l net.Listener) error {
 			return err
 		}
 
-		go server.receive(conn, nil)
+		server.accept(conn, epoch)
 	}
 }
 
 // tlsServe handles client connections with TLS.
-func (server *Server) tlsServe(l net.Listener, tlsConfig *tls.Config) error {
+func (server *Server) tlsServe(l net.Listener, tlsConfig *tls.Config, epoch int) error {
 	defer l.Close()
 
 	for {
@@ -233,47 +237,57 @@ func (server *Server) tlsServe(l net.Listener, tlsConfig *tls.Config) error {
 			return err
 		}
 
-		go server.receiveTLS(tls.Server(conn, tlsConfig))
+		server.accept(tls.Server(conn, tlsConfig), epoch)
 	}
 }
 
-// receiveTLS handles a client connection with TLS.
-func (server *Server) receiveTLS(tlsConn *tls.Conn) error {
-	// The handshake runs in the goroutine of the connection, so that a
-	// failed, slow or abandoned handshake affects only this client.
-	if err := tlsConn.Handshake(); err != nil {
-		log.Error(err)
-		return errors.Join(err, tlsConn.Close())
+// accept registers an accepted connection and starts to handle it.
+func (server *Server) accept(conn net.Conn, epoch int) {
+	handlerConn := newConnWith(conn, nil)
+	// The connection is registered before anything else is done with it, so
+	// that Stop closes it whatever state it is in; a connection accepted by
+	// a run that Stop has already ended is refused.
+	if !server.addConnOf(epoch, handlerConn) {
+		handlerConn.Close()
+		return
 	}
-	tlsState := tlsConn.ConnectionState()
-	return server.receive(tlsConn, &tlsState)
+	go server.receive(handlerConn)
 }
 
-// receive handles a client connection.
-func (server *Server) receive(conn net.Conn, tlsState *tls.ConnectionState) error {
-	_, isPasswdRequired := server.ConfigRequirePass()
-
-	handlerConn := newConnWith(conn, tlsState)
+// receive handles a registered client connection.
+func (server *Server) receive(handlerConn *Conn) error {
 	defer func() {
 		handlerConn.Close()
 	}()
+	defer func() {
+		server.RemoveConn(handlerConn)
+	}()
 
+	conn := handlerConn.Conn
+
+	if tlsConn, ok := conn.(*tls.Conn); ok {
+		// The handshake runs in the goroutine of the connection, so that a
+		// failed, slow or abandoned handshake affects only this client.
+		if err := tlsConn.Handshake(); err != nil {
+			log.Error(err)
+			return err
+		}
+		tlsState := tlsConn.ConnectionState()
+		handlerConn.tlsState = &tlsState
+	}
+
+	_, isPasswdRequired := server.ConfigRequirePass()
 	handlerConn.SetAuthrized(!isPasswdRequired)
-	if tlsState != nil {
+	if handlerConn.IsTLSConnection() {
 		ok, err := server.Authenticate(handlerConn)
 		if !ok {
 			err = errors.New("invalid client certificates")
 		}
 		if err != nil {
 			log.Error(err)
-			return errors.Join(err, handlerConn.Close())
+			return err
 		}
 	}
-
-	server.AddConn(handlerConn)
-	defer func() {
-		server.RemoveConn(handlerConn)
-	}()
 
 	log.Debugf("%s/%s (%s) accepted", PackageName, Version, conn.RemoteAddr().String())
 
